@@ -378,6 +378,10 @@ def run(ctx):
     except Skip:
         pass
 
+    # ---- R08.8 nothing stale holds back the quit's controls: restart marker <=> restart timer (owned by C06)
+    ctx.rule("R08.8", "no timer stays armed after the graceful restart it belongs to has been carried out, so the quit's normal-priority controls are read")
+    ctx.borrow("C06", ["R06.5"], "R08.8", "coupling invariant at the exit of every handler path")
+
 
 def jobrules_to_spawnable(ctx):
     c = ctx.facts.fns_matching(r"command::.*to_spawnable$", crate=SUP)
